@@ -152,6 +152,8 @@ def check_C15(ctx):
     cases, _ = ctx.tlc_mc("MC_C15", mc_cfg({"N": n, "Reprs": "TRUE"}, C15_LAWS + ["EmitCase"]), timeout=1800)
     obs = ctx.run_cases(cases)
     ctx.validate(obs)
+    big = ctx.gen("bigarrays", 300 if ctx.quick else 6000)
+    ctx.validate(ctx.run_cases(big), chunk=100)
     omni(ctx, offset=15)
     return finish(ctx, rule="every array of <= %d elements over four element universes (numbers with nil, strings, maps with "
                             "present/absent/nil key, ints) x the array-filter calls and two-filter chains x the Go "
@@ -420,7 +422,7 @@ def check_C07(ctx):
 # --------------------------------------------------------------------------- C14
 
 def check_C14(ctx):
-    cases, _ = ctx.tlc_mc("MC_C14", mc_cfg({}, ["Decided", "IncludeIsInlining", "NestedAndLoop", "EmptyIsIncluded", "FailuresFail", "IncluderEnvKept",
+    cases, _ = ctx.tlc_mc("MC_C14", mc_cfg({}, ["Decided", "IncludeIsInlining", "NestedAndLoop", "EmptyIsIncluded", "ChangedFilesSeen", "TrimStopsAtTheEdge", "FailuresFail", "IncluderEnvKept",
                                                  "EmitCase"]))
     ctx.validate(ctx.run_cases(cases))
     return finish(ctx, rule="MC_C14: includer depth 0-2 x target in the same directory / below x argument as literal, variable, "
